@@ -632,7 +632,7 @@ def op_base(w, op):
     x = w.operand(op, "x")
     how = op.get("how", "in_base")
     sysn = op.get("sys")
-    if isinstance(sysn, str) and sysn.startswith("simsys") and usys_def(w, sysn) is None:
+    if isinstance(sysn, str) and sysn not in BUILTIN_SYSTEMS and usys_def(w, sysn) is None:
         raise Skip
     if how == "get_base_equivalent":
         return x.units.get_base_equivalent(sysn)
